@@ -741,6 +741,12 @@ var corpusParse = []string{"", " ", "_", "_:", "_:a", "/", "/<", "/a<", "/a<>", 
 	"\"a\"@[2006-01-02T15:04:05.0000000001Z]", "\"a\"@[2006-01-02T15:04:05+01:60]", "\"a\"@[2006-01-02T15:04:05+1:00]",
 	"\"nan\"^^type:float64", "\"-NaN\"^^type:float64", "\"+Inf\"^^type:float64", "\"1e400\"^^type:float64", "\"0x1p-2\"^^type:float64", "\"1e-400\"^^type:float64",
 	"\"4.9e-324\"^^type:float64", "\"-0\"^^type:float64", "\".5\"^^type:float64", "\"5.\"^^type:float64",
+	"\"[-1]\"^^type:blob", "\"[+1]\"^^type:blob", "\"[01 002]\"^^type:blob", "\"[1 2 ]\"^^type:blob", "\"[ 1]\"^^type:blob", "\"[255 0]\"^^type:blob",
+	"\"[1,2]\"^^type:blob", "\"[0x10]\"^^type:blob", "\"[1\t2]\"^^type:blob",
+	"\"1\"^^type:bool", "\"t\"^^type:bool", "\"TRUE\"^^type:bool", "\"True\"^^type:bool", "\"0\"^^type:bool", "\"f\"^^type:bool", "\"F\"^^type:bool",
+	"\"FALSE\"^^type:bool", "\"False\"^^type:bool", "\"tRUE\"^^type:bool", "\"yes\"^^type:bool", "\"true \"^^type:bool", "\"\"^^type:bool",
+	"\"-0\"^^type:int64", "\"00012\"^^type:int64", "\"- 1\"^^type:int64", "\"1e3\"^^type:int64", "\"2147483648\"^^type:int64", "\"-9223372036854775809\"^^type:int64",
+	"\"1\"^^type:Int64", "\"1\"^^type:int64 ", "\"1\"^^type: int64", "\"1\"^^TYPE:int64",
 	"\"1_0\"^^type:int64", "\"0x10\"^^type:float64", " /a<b> ", "\xc2/a<b>\xa0", "_:a b", "/_<x>", "/a/<b>", "/a b<c>"}
 
 func mutate(s string) string {
@@ -1011,6 +1017,29 @@ func modeValues(n int) {
 			for _, s := range sibs {
 				emitValue("generated", s)
 			}
+		}
+	}
+	// long values (ids / texts / blobs of 300 bytes .. 100 KiB): round trip observed on the implementation only
+	rep := func(s string, n int) string { return strings.Repeat(s, n/len(s)+1)[:n] }
+	for _, n := range []int{300, 5000, 70000} {
+		longs := []val{
+			nodeOf("/t/"+rep("ab", n/10), rep("id \"@[ ] /x", n)),
+			immOf(rep("p\"@[] \\/q", n)),
+			tmpOf(rep("é\\n", n), time.Date(2006, 1, 2, 15, 4, 5, 7, time.FixedZone("", 3600))),
+			litOf(literal.Text, rep("x\"^^type:text y] /", n)),
+			litOf(literal.Blob, []byte(rep("\x00\xff\x7fA", n/8))),
+		}
+		s0, p0 := nodeOf("/a", rep("s] /", n)), immOf(rep("q r", n/4))
+		lt, _ := triple.New(s0.n, p0.p, objOf(litOf(literal.Text, rep("o", n))).o)
+		longs = append(longs, val{t: lt})
+		for _, v := range longs {
+			text := v.str()
+			res, v2 := parseKind(v.kind(), text)
+			j := J{"kind": "value", "src": "generated", "nomodel": true, "vk": v.kind(), "v": v.obs(), "text": hx(text), "parsed": res, "tables": newTables().json()}
+			if res["c"] == "ok" {
+				j["retext"] = hx(v2.str())
+			}
+			emit(j)
 		}
 	}
 	// second pass: every text is parsed again, in reverse order, after everything else went through the parsers in this
